@@ -52,6 +52,7 @@ FIELDS = {
 # (file key, class or None, function, name of the namespace object inside it or None)
 PLAN = [
     ("tm", "TaxonNamespace", "add_taxon", "self"),
+    ("tm", "TaxonNamespace", "add_taxa", "self"),
     ("tm", "TaxonNamespace", "new_taxon", "self"),
     ("tm", "TaxonNamespace", "new_taxa", "self"),
     ("tm", "TaxonNamespace", "remove_taxon", "self"),
